@@ -1,4 +1,4 @@
-import Props.SlicesGen
+import Props.GenMisc
 open Model.SlicesGen
 #print axioms uniqueCIDs_eq
 #print axioms uniqueCIDs_eq_uniq
